@@ -44,14 +44,27 @@ MANIFEST = dict(
          "never leaves fewer entries than cells), so a row naming every ORIGINAL column under page_by / subline_by must "
          "encode; the encoder correspondence and the well-formedness oracle run a header-variation class (1-3 explicit "
          "rows, 1 … original columns + 1 cells each, widths inherited / per original / per displayed column / per cell, "
-         "every column-removal strategy, single-section, multi-section, nested header lists) on every run.",
+         "every column-removal strategy, single-section, multi-section, nested header lists) on every run. "
+         "Props/C01totalnull.lean reads the quantifier's 'nulls' on whole columns: group_by over columns that hold nothing "
+         "but nulls (polars dtype Null, or a concrete dtype without a value) has contiguous keys at every level, so the "
+         "one permitted refusal cannot occur and the model encodes (C01_null_keys_contiguous, "
+         "C01_encode_total_null_keys[_wellformed]); the well-formedness oracle, the byte-exact encoder correspondence "
+         "(single- and multi-section) and the totality tie run a data-shape class on every run (harness/datashapes.py): "
+         "whole columns that are untyped-null (dtype Null), typed-null (String / Int64 / Float64 / Boolean / Date / "
+         "Object), null except one value, Object columns mixing str / int / float / bool / None, and zero-row frames "
+         "with those dtypes, as data column (one, several, all), group_by key at every level, page_by key at every "
+         "level and subline_by key, on documents that continue over several pages.",
     note="Totality is a theorem about the encoder MODEL (byte-exact against rtf_encode() on every generated document, "
          "exceptions included); of the real encoder it is observed on the configuration product (exceptions other than "
          "the documented ValueError are violations). Configurations the constructors accept outside the quantifier "
          "(empty attribute lists, ragged matrices, None for a required text attribute, col_rel_width=None on a "
          "table-rendered footnote, empty header text, page_by consuming every column, width vectors shorter than the "
          "cells) raise inside rtf_encode(): domain decisions (DESIGN §8), each with a Lean witness and a real replay "
-         "on every run. The harness's parser of real output into the grammar is trusted only fail-safe: any slip shows "
+         "on every run. The encoder model works on display cells, so a column's polars dtype is invisible to it: that "
+         "the real encoder treats every dtype alike is observed (data-shape class), not proved. A group_by KEY column of "
+         "dtype Object is not generated: polars refuses to compare Object series, rtf_encode() raises "
+         "InvalidOperationError on the unchanged tree (reported; Object columns in every other role encode). "
+         "The harness's parser of real output into the grammar is trusted only fail-safe: any slip shows "
          "as a re-print mismatch.",
     technique="Lean 4 proof (lexer/printer inversion, folds over tokens; well-formedness of the whole-encoder model's "
               "output) + Lean-decided oracle on real output + grammar-instance and byte-exact encoder correspondence",
@@ -63,7 +76,10 @@ RULE = ("configurations from the product: strategy × header mode (default, expl
         "per displayed column / per cell, written without regard to the columns page_by / subline_by remove) "
         "× title/subline/footnote/source/page header/footer presence × as_table × placements × orientation/paper size × "
         "nrow × page_by/subline_by/group_by/new_page/pageby_row/pageby_header × attribute shapes × integer and "
-        "half-point sizes × cell kinds (padded strings, ints, floats, nulls, non-ASCII); multi-section and figure "
+        "half-point sizes × cell kinds (padded strings, ints, floats, nulls, non-ASCII) × column data shapes (whole "
+        "column untyped-null = dtype Null / typed-null String Int64 Float64 Boolean Date Object / null except one value / "
+        "Object mixing str int float bool None / zero-row frame with those dtypes) × column role (data: one, several, "
+        "all; group_by level 0-2; page_by level 0-2; subline_by), mostly 2+ pages; multi-section and figure "
         "documents; non-trivial = ≥ 2 pages or ≥ 2 sections/figures; distinct by configuration tuple")
 
 # ----------------------------------------------------------------------------- real output → grammar tree
@@ -255,6 +271,12 @@ def _worker(args):
     try:
         if fixed is not None:
             spec, info = fixed["spec"], fixed["info"]
+        elif rest and rest[0] == "shapes":
+            # the data-shape class (harness/datashapes.py): every fourth document is multi-section
+            from .. import datashapes
+
+            rng = sub_rng(seed, "c01", "shapes", k)
+            spec, info = datashapes.gen_multi(rng, k) if k % 4 == 3 else datashapes.gen_table(rng, k)
         elif rest and rest[0]:
             spec, info = gen_headers_case(sub_rng(seed, "c01", "headers", k), k)
         else:
@@ -383,7 +405,7 @@ def run(res, build):
     known_lines = findings_stream(res)
 
     emitunit.run(res, res.tier)     # unit level: real Row/Cell/TextContent emitters vs Model/Emit.lean, byte-exact
-    from .. import encodecorr
+    from .. import datashapes, encodecorr
 
     # document level: the whole single-section encoder model (Model/Encode.lean = composition of the pagination,
     # layout, border, attribute, colour, width, group_by, conversion, escape and emitter models) must return the
@@ -409,6 +431,7 @@ def run(res, build):
     n = 420 if res.tier == "quick" else 6000
     jobs = [(res.seed, k, None) for k in range(n)]
     jobs += [(res.seed, k, None, True) for k in range(n // 5)]      # the header-variation class (`gen_headers_case`)
+    jobs += [(res.seed, k, None, "shapes") for k in range(n // 3)]  # the data-shape class (`harness/datashapes.py`)
     cdir = common.CORPUS / "C01"
     if cdir.exists():
         for i, f in enumerate(sorted(cdir.glob("*.json"))):
@@ -439,12 +462,19 @@ def run(res, build):
                                                                if isinstance(o["spec"].get("body"), dict) else "multi"))
             if info.get("header_mode") == "varied":
                 nt += (str([r[1:3] for r in info.get("header_rows", [])]),)
+            if info.get("data_shapes"):
+                nt += (str(sorted(set((r, s) for r, _, s in info["data_shapes"]))),)
         res.case(dict(spec=o["spec"], info=info), nt)
         res.count("kind:" + str(info.get("strategy")))
         res.count("header:" + str(info.get("header_mode")))
         res.count("status:" + o["status"])
         encodecorr.count_header_rows(res, info, prefix="hdrcells:wf")
+        datashapes.count(res, info, prefix="datashape:wf")
+        if info.get("data_shapes"):
+            res.count(f"datashape:wf:pages={min(np_, 3)}{'+' if np_ > 3 else ''}")
         judge(res, o, wf.get(i), tree.get(i))
+    # the replay names the smallest failing input found (stable: ties keep the order of discovery)
+    res.failures.sort(key=lambda cw: len(json.dumps(cw[0], default=str)))
     return common.finish(
         res, build, RULE, known_lines=known_lines, trusted=
         ["Lean 4.33 kernel; axioms ⊆ {propext, Classical.choice, Quot.sound} (audited per theorem on every run)",
